@@ -20,10 +20,11 @@ PROPS = {
         assumptions=["slices have cap == len (spare capacity not modelled)", "stride-0 inputs with zero-length leaf coordinates are only required not to panic"],
     ),
     "C02": dict(
-        modules=["GeomVerif.Properties.C02"],
-        n_quick=4000, n_thorough=60000, thorough_seeds=4, min_theorems=2,
+        modules=["GeomVerif.Properties.C02", "GeomVerif.Properties.C02Coll"],
+        n_quick=4000, n_thorough=60000, thorough_seeds=4, min_theorems=5,
         rule="random operation histories (length 1..40, 2% up to 400) over {Push(part) 40%, of which 1/6 wrong layout; Reverse; "
-             "Clone; Swap; Num; Coords; part accessor incl. out-of-range index} on Polygon, MultiLineString, MultiPoint, MultiPolygon; "
+             "Clone; Swap; Num; Coords; part accessor incl. out-of-range index} on Polygon, MultiLineString, MultiPoint, MultiPolygon; 1/5 of the histories on a "
+             "GeometryCollection: variadic Push of 0..3 point/linestring members (1/5 with another layout), SetLayout (incl. NoLayout), Layout, NumGeoms, Geoms, Geom(i); "
              "parts empty with P=1/3; layouts XY/XYZ/XYM/XYZM/Layout(5)/Layout(6), 1/40 NoLayout; arbitrary ordinate bit patterns. "
              "Go observations are compared with the Lean model of the code and with the list-of-parts specification (the oracle). "
              "non-trivial = history text longer than 24 characters; distinct = distinct history hashes",
